@@ -2,11 +2,13 @@ import FalconModel.Sched
 /-! scdriver — replay of a thread schedule through the C19(a) model.
 
     exec <locking 0|1> <table size n> <threads k> <schedule: comma list of thread ids | ->
-      -> t0=<outcome> .. t(k-1)=<outcome> ncomp=<compiles started> ev=<events> paths=<p0,..> agree=<1|0>
+      -> t0=<outcome> .. t(k-1)=<outcome> ncomp=<compiles started> ev=<events> paths=<p0,..> locks=1:1 agree=<1|0>
     outcome = done:<finder version>:<tables version>:<fill> | stuck | at:<pc>
     events  = S<thread>:<v> (compile v started: tables reset) / P<thread>:<v> (finder v published), in order, or -
     path    = d (called a compiled finder directly) | c (went through the stub and compiled) | w (went through the stub,
               found the router compiled after acquiring the lock) | - (not that far yet)
+    locks   = <lock objects of the router>:<of them existing before the first request>; in the model always 1:1 (`Sh.lock` is ONE
+              lock that is part of the initial state - see `Ll.lazy_lock_witness` for what happens when it is created on first use)
     agree   = the step-by-step replay ends in the same state as `St.exec` (the function the theorems are about)        -/
 open Sc
 
@@ -56,7 +58,7 @@ def step (line : String) : String :=
     let agree := ths.all (fun i => s.pcs i == s2.pcs i) && s.sh == s2.sh
     " ".intercalate (ths.map fun i => s!"t{i}=" ++ outcome (s2.pcs i)) ++ s!" ncomp={s2.sh.ncomp} ev=" ++
       (if lg.ev.isEmpty then "-" else ",".intercalate lg.ev) ++ " paths=" ++ ",".intercalate (ths.map (pathOf lg)) ++
-      " agree=" ++ (if agree then "1" else "0")
+      " locks=1:1 agree=" ++ (if agree then "1" else "0")
   | _ => "bad-op"
 
 partial def loop (h : IO.FS.Stream) : IO Unit := do
